@@ -960,7 +960,14 @@ pub fn infos() -> Vec<Info> {
 fn run_elems<T: GT>(env: &mut Env, salt: &str, chk: &CheckFn, pads: usize, text: bool) {
     let k = kind::<T>();
     for f in gen::fixed(k, T::N) {
-        let variants: Vec<Vec<u64>> = if pads == 0 { vec![f] } else { vec![f.clone(), [f.clone(), vec![0u64; pads]].concat(), [f, vec![u64::MAX; pads]].concat()] };
+        let variants: Vec<Vec<u64>> = if pads == 0 {
+            vec![f]
+        } else if k.boolean {
+            // masks: hidden lane clear / set, each through a comparison and through `!`
+            (0..4u64).map(|h| [f.clone(), vec![h; pads]].concat()).chain([f.clone()]).collect()
+        } else {
+            vec![f.clone(), [f.clone(), vec![0u64; pads]].concat(), [f, vec![u64::MAX; pads]].concat()]
+        };
         for w in variants {
             if !env.direct(&w, chk) {
                 return;
